@@ -5,6 +5,7 @@ This file: the framer never reports progress without consuming, and the stream r
 terminates on every finite input.
 -/
 import TurnModel.Lemmas.Framer
+import TurnModel.Props.C13
 namespace Turn.C09
 
 /-- `consumeSingleTURNFrame` never returns `(0, nil)` and never more than it was given -/
@@ -53,5 +54,19 @@ theorem readloop_frames_nonempty : ∀ (fuel : Nat) (chunks : List Bytes) (buff 
 example : consume [0x40, 0, 0xFF, 0xF9, 1, 2, 3, 4, 5] = .incomplete := by decide
 example : consume ([0, 1, 0xFF, 0xEC] ++ cookie ++ List.replicate 12 0) = .incomplete := by decide
 example : (readAll 10 [[0x40, 0, 0, 1], [9, 0, 0, 0]] []) = ([[0x40, 0, 0, 1, 9, 0, 0, 0]], some .eof) := by decide
+
+/-! ### client side (M6): the read loop's handler never waits for the application -/
+
+/-- over ANY history of writes, inbound messages, reads, ticks and Close, the client's receive queue never
+    holds more than `maxReadQueueSize` datagrams … -/
+theorem client_queue_bounded (ops : List Turn.Cli.Op) : (Turn.Cli.run Turn.Cli.init ops).1.queue.length ≤ Turn.Cli.qcap :=
+  (Turn.C13.inv_run ops Turn.Cli.init Turn.C13.inv_init).queue
+
+/-- … because a datagram arriving at a full queue is dropped on the spot (the handler returns; it does
+    not wait for room), whatever the datagram -/
+theorem client_full_queue_drops (s : Turn.Cli.State) (f : Turn.Srv.Addr) (d : Bytes) (h : Turn.Cli.qcap ≤ s.queue.length) :
+    Turn.Cli.enqueue s f d = s := by
+  have : ¬ s.queue.length < Turn.Cli.qcap := by omega
+  simp [Turn.Cli.enqueue, this]
 
 end Turn.C09
